@@ -124,7 +124,7 @@ def run_config(c, cfg):
     name, sp, tags, mode, grid = cfg['name'], cfg['spec'], cfg['tags'], cfg['mode'], cfg['grid']
     times = TIMES[grid]
     dt = times[1] - times[0]
-    pre = 'C09/%s/%s/' % (mode, name.split('_')[0] if not name.startswith('sched') else 'scheduled')
+    pre = 'C09/%s%s/%s/' % (mode, '-reinit' if cfg.get('reinit') else '', name.split('_')[0] if not name.startswith('sched') else 'scheduled')
     c.count('states')
 
     def case(us=None, rows=None, extra=None):
@@ -180,7 +180,12 @@ def run_config(c, cfg):
         c.nontrivial((name, mode, grid))
         return
     safe = mode == 'safe'
-    impl = e1.Impl(sp, safe)
+
+    def reinit(model):
+        # the model was already initialised once, then extended: the next interface initialises it again
+        model.py_initialize()
+        model.create_parameter('unused_extra', 1.0)
+    impl = e1.Impl(sp, safe, prepare=reinit if cfg.get('reinit') else None)
     net = RS.Net(sp, 'stochvol' if mode == 'volume' else 'stoch', safe)
     sched = [t for t in tags if t.startswith('scheduled:')]
     impl_wo = None
@@ -231,7 +236,7 @@ def run_config(c, cfg):
         if len(c.samples) < 1 and len(ref['us']) > 3:
             c.sample(dict(model=name, mode=mode, rules=sp['rules'], letters=letters, rows=ref['rows']))
     EXP.explore(factory, cfg['bound'], on_trace)
-    c.nontrivial((name, mode, grid))
+    c.nontrivial((name, mode, grid, bool(cfg.get('reinit'))))
 
 
 def run(ctx):
@@ -245,6 +250,9 @@ def run(ctx):
                     continue
                 cfgs.append(dict(name=name, spec=sp, tags=tags, mode=mode, grid=grid, bound=2 if ctx.quick else 3,
                                  depth=4 if ctx.quick else 6))
+                if mode in ('ssa', 'safe', 'volume', 'delay') and grid == 'u5' and ('counter' in tags or 'ode' in tags):
+                    # the same on a model that was initialised, extended and initialised again
+                    cfgs.append(dict(name=name, spec=sp, tags=tags, mode=mode, grid=grid, bound=2, depth=4, reinit=True))
     ctx.bounds = dict(configs=len(cfgs), cost_bound=cfgs[0]['bound'], lineage_lattice_depth=cfgs[0]['depth'], grids=TIMES)
     ctx.rule = ('E1+E2: rule sets chained in dependency order (repeated assignment to a parameter -> assignment to a species -> additive; '
                 'dt counter mirrored by a repeated assignment; ODE rule; rule scheduled at start and at every interior grid time) on models '
